@@ -354,3 +354,55 @@ def C(*parts: Term) -> Term:
 
 def K(b: bytes) -> Term:
     return ("CONST", b)
+
+
+# ----------------------------------------------------------------------------------------------- term rewriting (round trips)
+# Laws used (each is an assumption about a codec / container stated in the evidence, never about joserfc's own code):
+#   split(x0 . x1 . ... . xn, '.')[i] = xi     when every xi is base64url / base64url-JSON text (its alphabet has no '.')
+#   B64D(B64U(x)) = x                          (the strict codec of util.py; configuration decided by C19)
+#   B64JD(B64J(h)) = h                         (JSON round trip of a header object)
+def substitute(t: Any, leaf: str, repl: Term) -> Any:
+    if not isinstance(t, tuple):
+        return t
+    if t == ("LEAF", leaf):
+        return repl
+    return tuple(substitute(x, leaf, repl) for x in t)
+
+
+def _dot_free(t: Term) -> bool:
+    return isinstance(t, tuple) and t and t[0] in ("B64U", "B64J")
+
+
+def simplify(t: Any) -> Any:
+    """apply the laws above bottom-up until nothing changes"""
+    if not isinstance(t, tuple) or not t:
+        return t
+    t = tuple(simplify(x) for x in t)
+    k = t[0]
+    if k == "IDX" and isinstance(t[1], tuple) and t[1][:2] == ("CALL", "split"):
+        args = t[1][2]
+        if len(args) == 2 and args[1] == ("CONST", b".") and isinstance(args[0], tuple) and args[0][0] == "CAT":
+            parts = list(args[0][1])
+            segs: List[Term] = []
+            okp = True
+            i = 0
+            while i < len(parts):
+                if not _dot_free(parts[i]):
+                    okp = False
+                    break
+                segs.append(parts[i])
+                i += 1
+                if i < len(parts):
+                    if parts[i] != ("CONST", b"."):
+                        okp = False
+                        break
+                    i += 1
+            if okp and isinstance(t[2], int) and 0 <= t[2] < len(segs):
+                return segs[t[2]]
+    if k == "B64D" and isinstance(t[1], tuple) and t[1][0] == "B64U":
+        return t[1][1]
+    if k == "B64JD" and isinstance(t[1], tuple) and t[1][0] == "B64J":
+        return t[1][1]
+    if k == "CALL" and t[1] in ("decode_header", "json_b64decode") and len(t[2]) == 1:
+        return simplify(("B64JD", t[2][0]))
+    return t
